@@ -9,6 +9,7 @@ import (
 // PacketStore is a goroutine safe packet store.
 type PacketStore struct {
 	packets map[packet.ID]packet.Generic
+	order   []packet.ID
 	mutex   sync.RWMutex
 }
 
@@ -42,6 +43,11 @@ func (s *PacketStore) Save(pkt packet.Generic) {
 
 	id, ok := packet.GetID(pkt)
 	if ok {
+		// remember the order in which ids have been saved first
+		if _, exists := s.packets[id]; !exists {
+			s.order = append(s.order, id)
+		}
+
 		s.packets[id] = pkt
 	}
 
@@ -65,7 +71,16 @@ func (s *PacketStore) Delete(id packet.ID) {
 	defer s.mutex.Unlock()
 
 	// delete packet
-	delete(s.packets, id)
+	if _, exists := s.packets[id]; exists {
+		delete(s.packets, id)
+
+		for i, v := range s.order {
+			if v == id {
+				s.order = append(s.order[:i], s.order[i+1:]...)
+				break
+			}
+		}
+	}
 
 	verifHook(s, "delete", uint16(id), nil)
 }
@@ -75,10 +90,10 @@ func (s *PacketStore) All() []packet.Generic {
 	s.mutex.RLock()
 	defer s.mutex.RUnlock()
 
-	// collect packets
+	// collect packets in the order they have been saved
 	var all []packet.Generic
-	for _, pkt := range s.packets {
-		all = append(all, pkt)
+	for _, id := range s.order {
+		all = append(all, s.packets[id])
 	}
 
 	verifHook(s, "all", 0, all)
@@ -93,6 +108,7 @@ func (s *PacketStore) Reset() {
 
 	// reset packets
 	s.packets = make(map[packet.ID]packet.Generic)
+	s.order = nil
 
 	verifHook(s, "reset", 0, nil)
 }
